@@ -51,6 +51,9 @@ checks = {
  "C10": ("exploration", "seeded histories of connections, restarts, reconfigurations, forged ids and ruined handshakes over one client and several real servers, judged by a reference model of the caches",
    "Each history mixes connects (handshake+echo), server cache loss, client/server suite changes, a scripted client offering a forged id, and handshakes ruined by a transport cut; with/without client certificates; both stacks. Oracle: DidResume on both sides equals the model's prediction, every honest connection succeeds (transparent fallback), resumed connections keep the peer identity and have fresh randoms/Finished, session ids are 32 bytes and unique, a session offered in a failed handshake is not offered again (checked on the wire).",
    "Trusted: the cache model (large capacities); negotiation model of C01.", "5/C10"),
+ "C12": ("exploration", "seeded API histories on the stream stack: transport cuts at drawn byte offsets, protected alerts of every level from a scripted peer, early application data, context cancellation at drawn handshake steps, and Close/CloseWrite/Read/Write/Handshake sequences, judged by a per-end state machine",
+   "cut: writer sends N records then closes / half-closes / does nothing while the transport ends before or inside a drawn record; alert: scripted peer sends protected alerts (levels 0,1,2,3,255; many descriptions; runs of 16/17); early-app; cancel (the library's interrupter goroutine is the one unmanaged goroutine: its transport Close is awaited as an external event); api sequences incl. before the handshake. Oracle: prefix of whole records, EOF only on close_notify or boundary cut, ErrUnexpectedEOF inside a record, errors latched, nothing delivered after Close/failure, second Close = net.ErrClosed, Write after CloseWrite fails, cancelled handshake returns context.Canceled.",
+   "Trusted: Write after a RECEIVED fatal alert is not judged (see assumptions in the evidence).", "5/C12"),
 }
 not_applicable = {
  "C14": "pure function of its input (marshal/unmarshal): no schedule, clock, transport, peer or history enters; input generation is not a simulation target (DESIGN.md section 7). What the simulator sees of the codec is covered under C03/C04/C09.",
